@@ -923,7 +923,15 @@ impl Model for Cw20Model {
                 let obs = self.observe(&w).unwrap_or_default();
                 if obs != *pre {
                     v.push(Violation::new(
-                        if cfg.props.c13 { "C13.migration_changes_minter_cap_or_supply" } else { "C19.migration_changes_owner_view" },
+                        if cfg.props.c13 {
+                            "C13.migration_changes_minter_cap_or_supply"
+                        } else if cfg.props.c19 {
+                            "C19.migration_changes_owner_view"
+                        } else if cfg.props.c01 {
+                            "C01.migration_changes_balances_or_supply"
+                        } else {
+                            "C02.migration_changes_balances_or_allowances"
+                        },
                         format!("balances / supply / minter / Allowance queries differ after migrate: minter {:?} -> {:?}, supply {} -> {}", pre.minter, obs.minter, pre.supply, obs.supply),
                     ));
                 }
